@@ -206,7 +206,16 @@ func (b *builder) unit(depth int) gram.Ref {
 	if depth <= 0 {
 		return b.tok()
 	}
-	switch r.Intn(14) {
+	switch r.Intn(16) {
+	case 14, 15:
+		// the same element under several sugar forms and with different
+		// separators in one specification (helper rules are shared by name)
+		x := b.unit(depth - 1)
+		s1, s2 := b.tok(), b.tok()
+		k1, k2, k3 := b.tok(), b.tok(), b.tok()
+		forms := []gram.Term{TL(x, s1, false), TL(x, s2, false), TL(x, s1, true), TS(x, gram.Plus), TS(x, gram.Star), TS(x, gram.Opt), TL(x, s2, true)}
+		p := r.Perm(len(forms))
+		return b.rule(P(T(k1), forms[p[0]]), P(T(k2), forms[p[1]]), P(T(k3), forms[p[2]]))
 	case 12, 13:
 		// nullable chain: nullability has to travel several steps, against
 		// declaration order, through rules that already own terminals:
